@@ -381,6 +381,9 @@ func (b *TB) Eq(x, y *Term) *Term {
 			return b.Not(x)
 		}
 	}
+	if y.IsConst() && x.op == OIte && !(x.args[1].IsConst() && x.args[2].IsConst()) && constTree(x, 12) {
+		return b.mapTree(x, func(l *Term) *Term { return b.Eq(l, y) })
+	}
 	if y.IsConst() && x.op == OIte && x.args[1].IsConst() && x.args[2].IsConst() {
 		e1 := x.args[1].val.Cmp(y.val) == 0
 		e2 := x.args[2].val.Cmp(y.val) == 0
@@ -415,11 +418,36 @@ func (b *TB) Ne(x, y *Term) *Term { return b.Not(b.Eq(x, y)) }
 
 // ---------- bit-vectors
 
+// constTree: an ite tree whose leaves are all constants (depth-limited).
+func constTree(t *Term, d int) bool {
+	if t.IsConst() {
+		return true
+	}
+	if t.op != OIte || d == 0 {
+		return false
+	}
+	return constTree(t.args[1], d-1) && constTree(t.args[2], d-1)
+}
+
+// mapTree applies f to the leaves of a const tree.
+func (b *TB) mapTree(t *Term, f func(*Term) *Term) *Term {
+	if t.op == OIte {
+		return b.Ite(t.args[0], b.mapTree(t.args[1], f), b.mapTree(t.args[2], f))
+	}
+	return f(t)
+}
+
 func (b *TB) bvBin(op Op, x, y *Term) *Term {
 	if x.sort != y.sort || x.sort.K != KBV {
 		panic(fmt.Sprintf("bv op %s sort mismatch %v %v", opNames[op], x.sort, y.sort))
 	}
 	w := x.sort.W
+	if x.op == OIte && y.IsConst() && constTree(x, 12) {
+		return b.mapTree(x, func(l *Term) *Term { return b.bvBin(op, l, y) })
+	}
+	if y.op == OIte && x.IsConst() && constTree(y, 12) {
+		return b.mapTree(y, func(l *Term) *Term { return b.bvBin(op, x, l) })
+	}
 	if x.IsConst() && y.IsConst() {
 		if r := foldBV(op, x, y, w); r != nil {
 			return b.BVBig(r, w)
@@ -796,6 +824,9 @@ func (b *TB) Extract(x *Term, hi, lo int) *Term {
 			return b.Extract(x.args[0], hi, lo)
 		}
 	case OIte:
+		if constTree(x, 12) {
+			return b.mapTree(x, func(l *Term) *Term { return b.Extract(l, hi, lo) })
+		}
 		if x.args[1].IsConst() || x.args[2].IsConst() {
 			return b.Ite(x.args[0], b.Extract(x.args[1], hi, lo), b.Extract(x.args[2], hi, lo))
 		}
@@ -845,6 +876,12 @@ func (b *TB) cmp(op Op, x, y *Term) *Term {
 	}
 	if x == y {
 		return b.Bool(op == OBvUle || op == OBvSle || op == OILe)
+	}
+	if x.op == OIte && y.IsConst() && constTree(x, 12) {
+		return b.mapTree(x, func(l *Term) *Term { return b.cmp(op, l, y) })
+	}
+	if y.op == OIte && x.IsConst() && constTree(y, 12) {
+		return b.mapTree(y, func(l *Term) *Term { return b.cmp(op, x, l) })
 	}
 	if op == OBvUlt && y.IsConst() && y.val.Sign() == 0 {
 		return b.False
